@@ -297,6 +297,30 @@ func runC01(c *Ctx) {
 
 	s.checkSkippedFindable(c, "skipped-is-findable")
 	s.checkExitCodeProvenance(c, "exitcode-provenance")
+	s.checkLatchContextsIndependent(c, "latch-contexts-independent")
+	// depends_on is dropped only for processes that are selected to run (no-deps selection): a process that is left
+	// disabled keeps its dependencies, so a later manual start of it is still gated
+	{
+		rDrop := c.Rule("dependencies-dropped-only-when-selected", "every store that replaces ProcessConfig.DependsOn in the app package is made in a block that also stores Disabled = false for the same process, or is dominated by one")
+		n := 0
+		for _, f := range p.FuncsOfPkg("app") {
+			for _, in := range DirectSites(f, StoreTo("DependsOn", s.FDependsOn)) {
+				n++
+				c.Touch(f)
+				ok := false
+				for _, ds := range DirectSites(f, StoreTo("Disabled", s.FDisabled)) {
+					v, _ := StoredValue(ds, s.FDisabled)
+					if b, isK := ConstBool(v); isK && !b && (ds.Block() == in.Block() || ds.Block().Dominates(in.Block())) {
+						ok = true
+					}
+				}
+				c.Check(ok, rDrop, p.FuncKey(f), p.InstrPos(in), "dropped on the selected edge only", "depends_on is emptied for processes that are not selected (they stay disabled): when such a process is started by hand later it is launched at once, before the processes it depends on have met their conditions")
+			}
+		}
+		if n == 0 {
+			c.OK(rDrop, "none", "", "depends_on is never replaced at run time")
+		}
+	}
 	s.checkProbeFailureIsError(c, "probe-failure-is-error")
 	s.checkIncompatibleHealthChecksRejected(c, "ready-line-and-probe-rejected")
 }
